@@ -3,6 +3,7 @@ import numpy as np
 from hypothesis import strategies as st
 
 from vp import sut
+from vp.gens import weighted
 
 ID = "C19"
 LEVEL = "exploration"
@@ -146,7 +147,7 @@ def _parabola_case(draw):
 
 
 def strategy(tier):
-    return st.one_of(*([_case()] * 15 + [_parabola_case()]))
+    return weighted((15, _case()), (1, _parabola_case()))
 
 
 def _gaps(case, rng):
